@@ -175,12 +175,13 @@ D, S, SW, SE = 8, 1000, 100, 100
 def random_rows(rng):
     ncol = rng.choice([3, 4])
     n = rng.randint(2, 24)
+    narrow = rng.random() < 0.7
     while True:
-        ks = rng.sample(range(8, 129), n)
+        # narrow 4-column rows: even lattice points, so that the bins (width 1/8 um) do not touch
+        ks = rng.sample(range(8, 129, 2) if (narrow and ncol == 4) else range(8, 129), n)
         s = sorted(ks)
         if ncol == 4 or 3 * s[0] > s[1]:
             break
-    narrow = rng.random() < 0.6
     rows = []
     for k in ks:
         j = 1 if narrow else rng.randint(1, min(16, 2 * k - 1))
@@ -283,11 +284,13 @@ def run_traces(ctx, nloads):
         ctx.verdict('trace_widths_edges_reading', e['reading'] != 'none', cls=cls, detail='widths/edges follow neither reading', vector=m)
     ctx.add_sample(dict(trace_event=slim[0]))
     ctx.note('trace: %d loads (%d with the binned piecewise-constant model aligned check)' % (len(events), nalign))
-    if nalign < len(events) // 5:
+    if nalign < len(events) // 10 and not badids:
         raise Machinery('too few aligned-model checks in the trace (%d of %d)' % (nalign, len(events)))
     # canary: swap two observed values of an accepted 4-column event with an aligned check
     good = [e for e in slim if e['id'] not in badids and e['chkalign'] and len(e['val']) >= 3 and e['val'][0] != e['val'][1]]
     if not good:
+        if badids:
+            return            # candidates already rejected: the run reports violations
         raise Machinery('no event available for the canary')
     c1 = dict(good[len(good) // 2]); c1['val'] = [c1['val'][1], c1['val'][0]] + c1['val'][2:]; c1['id'] = 900001
     c2 = dict(good[0]); c2['mwid'] = list(reversed(c2['mwid'])); c2['bwid'] = c2['mwid']; c2['id'] = 900002
